@@ -793,7 +793,7 @@ func (v Value) toReflectValue(typ reflect.Type) (reflect.Value, error) {
 		// We convert to float64 here because converting to int64 will not tell us
 		// if a value is outside the range of int64
 		tmp := toIntegerFloat(v)
-		if tmp < floatMinInt || tmp > floatMaxInt {
+		if tmp < floatMinInt || tmp >= floatMaxInt {
 			return reflect.Value{}, fmt.Errorf("RangeError: %f (%v) to int", tmp, v)
 		}
 		return reflect.ValueOf(int(tmp)).Convert(typ), nil
@@ -819,7 +819,7 @@ func (v Value) toReflectValue(typ reflect.Type) (reflect.Value, error) {
 		// We convert to float64 here because converting to int64 will not tell us
 		// if a value is outside the range of int64
 		tmp := toIntegerFloat(v)
-		if tmp < floatMinInt64 || tmp > floatMaxInt64 {
+		if tmp < floatMinInt64 || tmp >= floatMaxInt64 {
 			return reflect.Value{}, fmt.Errorf("RangeError: %f (%v) to int", tmp, v)
 		}
 		return reflect.ValueOf(int64(tmp)).Convert(typ), nil
@@ -827,7 +827,7 @@ func (v Value) toReflectValue(typ reflect.Type) (reflect.Value, error) {
 		// We convert to float64 here because converting to int64 will not tell us
 		// if a value is outside the range of uint
 		tmp := toIntegerFloat(v)
-		if tmp < 0 || tmp > floatMaxUint {
+		if tmp < 0 || tmp >= floatMaxUint {
 			return reflect.Value{}, fmt.Errorf("RangeError: %f (%v) to uint", tmp, v)
 		}
 		return reflect.ValueOf(uint(tmp)).Convert(typ), nil
@@ -853,7 +853,7 @@ func (v Value) toReflectValue(typ reflect.Type) (reflect.Value, error) {
 		// We convert to float64 here because converting to int64 will not tell us
 		// if a value is outside the range of uint64
 		tmp := toIntegerFloat(v)
-		if tmp < 0 || tmp > floatMaxUint64 {
+		if tmp < 0 || tmp >= floatMaxUint64 {
 			return reflect.Value{}, fmt.Errorf("RangeError: %f (%v) to uint64", tmp, v)
 		}
 		return reflect.ValueOf(uint64(tmp)).Convert(typ), nil
